@@ -55,6 +55,7 @@ type Path struct {
 type Val struct {
 	IfaceT types.Type // static type of the value boxed by MakeInterface (when known)
 	IfaceV Term       // and its term
+	IfaceP *Path      // the boxed value is the address of this location of the caller (e.g. heap.Push(&c.deferredPQ, x))
 	T   Term
 	P   *Path
 	Tup []Val
